@@ -53,20 +53,20 @@ proof fn lemma_mod_eq(l: int, b: int)
 //@item struct CheckInCounter
 
 impl CheckInCounter {
-//@fn CheckInCounter::new ret=r
+//@fn CheckInCounter::new ret=r twin=c12_checkin_new
 //@+ requires epoch != 0,
 //@+ ensures r.value == start, r.epoch == epoch, r.next_epoch as int == (start + epoch) % M32,
 //@+     forall|l: int| 0 <= l && #[trigger] val_of(l) == start ==> repr(r, l, l + epoch),
 //@at before "Self {"
 //@+ proof { assert forall|l: int| 0 <= l && #[trigger] val_of(l) == start implies (l + epoch) % M32 == (start + epoch) % M32 by { lemma_mod_add(l, epoch as int); } }
 
-//@fn CheckInCounter::next ret=r
+//@fn CheckInCounter::next ret=r twin=c12_checkin_advance
 //@+ ensures r as int == (self.value + 1) % M32,
 //@+     forall|l: int, b: int| repr(*self, l, b) ==> r as int == (l + 1) % M32,
 //@at before "self.value.wrapping_add(1)"
 //@+ proof { assert forall|l: int, b: int| repr(*self, l, b) implies (self.value + 1) % M32 == (l + 1) % M32 by { lemma_mod_add(l, 1); } }
 
-//@fn CheckInCounter::advance ret=r
+//@fn CheckInCounter::advance ret=r twin=c12_checkin_advance
 //@+ ensures
 //@+     final(self).epoch == old(self).epoch,
 //@+     // refinement of the abstract `use` transition, for every logical interpretation of the old state
@@ -84,7 +84,7 @@ impl CheckInCounter {
 //@at after "self.next_epoch = self.next_epoch.wrapping_add(self.epoch);"
 //@+ proof { assert forall|l: int, b: int| repr(*old(self), l, b) implies self.next_epoch as int == (b + old(self).epoch) % M32 by { lemma_mod_add(b, old(self).epoch as int); } }
 
-//@fn CheckInCounter::advance_by ret=r
+//@fn CheckInCounter::advance_by ret=r twin=c12_checkin_advance_by
 //@+ ensures
 //@+     final(self).epoch == old(self).epoch,
 //@+     forall|l: int, b: int| repr(*old(self), l, b) ==> {
